@@ -8,6 +8,7 @@ ASSUMPTIONS = [
     "reqwest clients are built with redirect::Policy::none() and the ureq agent with redirects(0), as the crate's documentation requires of callers; the curl adapter sets nothing and must not follow by itself",
     "every exchange runs under a 10 s watchdog; HANG and PANIC are observations",
     "a Content-Length of 2^63 or more is outside what libcurl parses: it ignores the header and delivers the bytes up to the close; the huge-Content-Length faults beyond 2^40 are therefore run through reqwest and ureq only (observation of the library, not of the adapter code)",
+    "a reply with two Content-Type header lines: reqwest and ureq report the first, libcurl's CURLINFO_CONTENT_TYPE (which the curl adapter reads) the last; such a reply is invalid HTTP (RFC 9110 5.3), so the repeated-header cases run through reqwest (both) and ureq only and the curl behaviour is recorded here as an observation of the library",
     "what the model cannot exhibit: socket behaviour, TLS, HTTP/2, proxies, timeouts of the libraries",
 ]
 ADAPTERS = ["reqwest", "reqwest_blocking", "curl", "ureq"]
@@ -50,6 +51,12 @@ def gen(tier, rng):
                 continue    # libcurl ignores a Content-Length beyond i64 and reads to the close (see ASSUMPTIONS)
             for st in (200, 400):
                 out.append((line(a, REQ_BODIES[0], None, "/token", st, CTS[1], "cl", REPLY_BODIES[1], fault), "fault/" + fault))
+        # a reply that repeats a header (two Content-Type lines): the adapter hands over the reply's headers as they came,
+        # so the first value is what the library sees, through every adapter alike
+        for ct2 in () if a == "curl" else (b"application/json\ntext/plain", b"text/plain\napplication/json", b"application/json\napplication/json; charset=utf-8"):
+            for st, body in ((200, REPLY_BODIES[5]), (400, REPLY_BODIES[1])):
+                out.append((line(a, REQ_BODIES[0], None, "/token", st, ct2, "cl", body, "none"), "repeated-header"))
+                out.append(("NETFLOW %s %d %s %s" % (a, st, C.topt(ct2), C.tb(body)), "flow-repeated-header"))
         # whole flows: an OAuth error reply is classified as through an in-memory client
         for st, body in ((400, b"{\"error\":\"invalid_grant\"}"), (400, b"{\"error\":\"authorization_pending\"}"), (401, b"{\"error\":\"invalid_client\",\"error_description\":\"x\"}"),
                          (200, b"{\"access_token\":\"tok\",\"token_type\":\"Bearer\",\"expires_in\":3600}"), (500, b""), (503, b"<html>"), (200, b"not json"), (403, b"{\"error\":\"custom\"}")):
